@@ -7,7 +7,7 @@ from lib import common, gen, judge
 from monitors import vecs as V
 from ref import model, codec, randprog, canon
 
-SLOT = os.path.join(os.environ.get('TMPDIR', '/tmp'), 'wowverif-c07-slot')
+SLOT = os.path.join(os.environ.get('TMPDIR', '/tmp'), f'wowverif-{os.getpid()}-c07-slot')   # per process: two runs may overlap
 
 
 def letters(n):
